@@ -14,7 +14,7 @@ LEVEL = 'exploration'
 BUDGET = {'quick': 1500, 'thorough': 60000}
 CAP_S = {'quick': 150, 'thorough': 3000}
 RULE = ('case = class source from a grammar: plain / class / static methods, properties with getter, setter and deleter, unannotated '
-        'members, @no_type_check members, members pre-wrapped by a functools.wraps user decorator, nested classes (2 levels), single '
+        'members, members annotated only in part (parameter / return / each property accessor independently), @no_type_check members, members pre-wrapped by a functools.wraps user decorator, nested classes (2 levels), single '
         'inheritance from an undecorated parent with annotated members, optional @dataclass; every member gets conforming and violating '
         'probe calls. Two routes over two copies of the same source: @beartype on the class vs my own rewriter decorating each own member '
         '(unwrapping and re-wrapping descriptors, recursing into nested classes, not touching inherited members). Asserted: same class '
@@ -50,20 +50,25 @@ def render_class(spec, ind=0, parent=None):
     for m in spec['members']:
         n, k, ph, rh = m['name'], m['kind'], m['param'], m['ret']
         body = 'return x' if m['body'] == 'echo' else "return 'v'" if m['body'] == 'str' else 'return 7'
-        sig_ann = '(self, x: %s) -> %s' % (ph, rh)
+        # each part of a member is annotated independently (absent keys = annotated: older replay files)
+        pa = ': %s' % ph if m.get('ann_param', True) else ''
+        ra = ' -> %s' % rh if m.get('ann_ret', True) else ''
+        sig_ann = '(self, x%s)%s' % (pa, ra)
         p = pad + '    '
         if k == 'method':
             out += ['%sdef %s%s:' % (p, n, sig_ann), '%s    """doc %s"""' % (p, n), '%s    %s' % (p, body)]
         elif k == 'classmethod':
-            out += ['%s@classmethod' % p, '%sdef %s(cls, x: %s) -> %s:' % (p, n, ph, rh), '%s    %s' % (p, body)]
+            out += ['%s@classmethod' % p, '%sdef %s(cls, x%s)%s:' % (p, n, pa, ra), '%s    %s' % (p, body)]
         elif k == 'staticmethod':
-            out += ['%s@staticmethod' % p, '%sdef %s(x: %s) -> %s:' % (p, n, ph, rh), '%s    """doc %s"""' % (p, n), '%s    %s' % (p, body)]
+            out += ['%s@staticmethod' % p, '%sdef %s(x%s)%s:' % (p, n, pa, ra), '%s    """doc %s"""' % (p, n), '%s    %s' % (p, body)]
         elif k in ('property', 'rwproperty'):
-            out += ['%s@property' % p, '%sdef %s(self) -> %s:' % (p, n, rh), '%s    """doc %s"""' % (p, n),
+            out += ['%s@property' % p, '%sdef %s(self)%s:' % (p, n, ra), '%s    """doc %s"""' % (p, n),
                     "%s    return getattr(self, '_%s', %s)" % (p, n, "'v'" if m['body'] == 'str' else '7')]
             if k == 'rwproperty':
-                out += ['%s@%s.setter' % (p, n), '%sdef %s(self, x: %s) -> None:' % (p, n, ph), '%s    self._%s = x' % (p, n),
-                        '%s@%s.deleter' % (p, n), '%sdef %s(self) -> None:' % (p, n), '%s    self.__dict__.pop("_%s", None)' % (p, n)]
+                out += ['%s@%s.setter' % (p, n), '%sdef %s(self, x%s)%s:' % (p, n, pa, ' -> None' if m.get('ann_param', True) else ''),
+                        '%s    self._%s = x' % (p, n),
+                        '%s@%s.deleter' % (p, n), '%sdef %s(self)%s:' % (p, n, ' -> None' if m.get('ann_del', True) else ''),
+                        '%s    self.__dict__.pop("_%s", None)' % (p, n)]
         elif k == 'unannotated':
             out += ['%sdef %s(self, x):' % (p, n), '%s    return x' % p]
         elif k == 'no_type_check':
@@ -172,8 +177,10 @@ def run_probes(cls, spec):
     return res
 
 
-_member = st.fixed_dictionaries({'kind': st.sampled_from(KINDS), 'param': st.sampled_from(HINTS), 'ret': st.sampled_from(HINTS),
-                                 'body': st.sampled_from(['echo', 'echo', 'int', 'str'])})
+_mostly = st.sampled_from([True, True, False])
+_member = st.fixed_dictionaries({'kind': st.sampled_from(KINDS + ['rwproperty']), 'param': st.sampled_from(HINTS), 'ret': st.sampled_from(HINTS),
+                                 'body': st.sampled_from(['echo', 'echo', 'int', 'str']),
+                                 'ann_param': _mostly, 'ann_ret': _mostly, 'ann_del': _mostly})
 
 
 def _cls(name, depth):
@@ -307,10 +314,13 @@ def run_case(case):
     _walk(nsC['K'], spec, cmp3)
     kinds = set()
     _walk(KA, spec, lambda c, m, p: kinds.add(m['kind']))
+    partial = set()
+    _walk(KA, spec, lambda c, m, p: partial.add('partly-annotated:' + m['kind']) if m['kind'] in ('rwproperty', 'property', 'method', 'classmethod', 'staticmethod')
+          and not (m.get('ann_param', True) and m.get('ann_ret', True) and m.get('ann_del', True)) else None)
     nontriv = len(kinds) >= 3 or bool(spec.get('nested')) or bool(spec.get('inherit'))
     return {'fails': fails, 'nontrivial': nontriv, 'evals': len(pa) + len(pb),
             'classes': ['nkinds:%d' % len(kinds), 'nested' if spec.get('nested') else 'flat', 'inherit' if spec.get('inherit') else 'noinherit',
-                        'dataclass' if spec.get('dataclass') else 'plain', 'conf:' + case['conf']]}
+                        'dataclass' if spec.get('dataclass') else 'plain', 'conf:' + case['conf']] + sorted(partial)[:3]}
 
 
 _DASH_O = r'''
